@@ -19,7 +19,7 @@ EXPLANATION = (
     "reciprocal; the Lambert constant blocks are equal and the isometric-latitude expressions mutually inverse; "
     "whole-track conversions convert with the old base before recording the new one.")
 ASSUMPTIONS = ["floating-point accuracy (1e-9 degree / 1 mm) of the Bowring one-step inverse is numerical analysis, not decided here"]
-TECHNIQUE = "polynomial/trigonometric identity checking against closed-form specifications (F2), matrix transpose/orthonormality (F2), constant-table agreement (F5), store ordering (F6)"
+TECHNIQUE = 'polynomial / trigonometric identity checking of the conversion formulas against closed-form specifications on symbolic return values (F2), matrix transpose / orthonormality (F2), projection constants identified by value and compared across the pair (F5), abstract interpretation of the whole-track conversions on tagged positions (bounded case domain)'
 
 
 def vr(v):
